@@ -88,12 +88,15 @@ namespace H
   void destroy(int obj);          // implemented by the driver: destroys that object now (from inside a side effect)
   void deferred(int k);           // implemented by the driver: carries out the deferred operation k (release / create an expectation)
 
-  inline bool with(Params const& p, int idx, int arg)
+  // the value of a WITH expression only has to be convertible to bool: the second and third clause of a shape give an
+  // arithmetic value whose "true" is not 1
+  inline int with(Params const& p, int idx, int arg)
   {
     emit("C %d W %d %d", p.id, idx, arg);
-    return arg >= 0 && arg < 32 && ((p.wmask[idx] >> arg) & 1U);
+    bool ok = arg >= 0 && arg < 32 && ((p.wmask[idx] >> arg) & 1U);
+    return ok ? (idx == 0 ? 1 : 6) : 0;
   }
-  inline bool with(Params const& p, int idx, std::string const& arg)
+  inline int with(Params const& p, int idx, std::string const& arg)
   {
     return with(p, idx, sidx(arg));
   }
